@@ -72,6 +72,7 @@ def _facts():
 def _controls(p):
     """yield (name, template, good_verdict, bad_verdict): good must be True, bad must be False"""
     from .core import e_has_field, e_calls, is_call, short, walk
+    from .core import e_roots as e_roots_
     from . import rules as R
     from . import bytetab
 
@@ -134,6 +135,29 @@ def _controls(p):
 
     # the slicer may inline `let n = 0` (foldable) but never a scalar that was lent out by &mut (opaque)
     yield ("mut-borrowed-opaque", "slicer", sees_through("foldable") and not sees_through("opaque"), sees_through("opaque"))
+
+    # captured variables: `.^i:name` of the closure resolves, through the closure aggregate, to the parent's local
+    par = p.one(r"Chan::capture$")
+    clo = [c_ for c_ in p.with_closures(par) if c_ is not par]
+    assert clo, "closure body of Chan::capture lost"
+    got = {}
+    for bb, i, s in clo[0].assigns():
+        for x in s["p"][1:]:
+            if isinstance(x, str) and x.startswith(".^"):
+                r = p.upvar(clo[0], x)
+                if r:
+                    got["written"] = [par.lty(y[1]) for y in e_roots_(r[1]) if y[0] in ("var", "phi")]
+    for a in clo[0].live:
+        br = clo[0].branch(a)
+        if br:
+            for y in walk(br[0]):
+                if y[0] == "place":
+                    for x in y[2]:
+                        if isinstance(x, str) and x.startswith(".^"):
+                            r = p.upvar(clo[0], x)
+                            if r:
+                                got["tested"] = R.e_has_field(r[1], r"\.limit$") or [par.lty(z[1]) for z in e_roots_(r[1])]
+    yield ("upvar-resolution", "closures", got.get("written") == ["bool"] and got.get("tested") is True, got.get("written") == ["usize"])
 
     # T4/T9 reset completeness ---------------------------------------------------
     adt = [a for n, a in p.adts.items() if n.endswith("::Chan")]
